@@ -1331,7 +1331,11 @@ fn match_of(
         }
         return res;
     } else {
-        return solve_expression(expression, identifiers, document);
+        // A single member can satisfy a count of at most one
+        return match solve_expression(expression, identifiers, document) {
+            SolverResult::True if count > 1 => SolverResult::Missing,
+            res => res,
+        };
     }
     SolverResult::False
 }
